@@ -41,6 +41,24 @@
   * `join u` (Thread_Join → pthread_join) is enabled only when `u` has finished `Thread_Init_Run` (phase `done`).
     A Thread object that was never called has `thread == 0`: Thread_Join returns at once (`Out.nothread`).
 
+  * a Thread object made the documented way, `var x = new(Thread, f)`, is an object of the *creator's* collector
+    (`G.wraps`: thread `u`'s `struct Thread` is the managed object `⟨s, thrBase + u⟩` of thread `s`; op-file line
+    `s newthr u` = `.loc s (.new (thrBase+u) false false)` followed by `.bind s u`).  `GC_Mark_Item` → `GC_Recurse` calls
+    the `Mark` instance of whatever registered object it meets; for a Thread object that is `Thread_Mark` →
+    `mark(t->tls, gc, f)`: **the mark phase of `s` walks the thread-local table of `u`** (`foreignMarks`; `Cfg.foreignMark`
+    is read from the source: `Thread_Mark` does not test `self is current(Thread)`).  In the model the walk is an atomic
+    read at operation granularity: own objects of `s` that `u`'s table refers to are marked.  In C it is an unsynchronised
+    read of a table its owner rewrites (set/rem, prologue and epilogue of `Thread_Init_Run`): KF-C13-mark-foreign-tls.
+    When a sweep (collection, `del`, teardown) of `s` finalises the Thread object, `Thread_Del` frees `u`'s table:
+    for a live `u` that is a use after free (`wrapperKilled` → `Out.ub`, not executed), afterwards `call`/`join` on
+    the dead Thread object is `ub` (`wrapperGone`).  Thread objects as thread-local *values* are not modelled (`tset` of a
+    serial ≥ `thrBase` is `bad`).
+  * `join(current(Thread))`: `pthread_join` reports EDEADLK, which `Thread_Join` ignores: it returns at once
+    (`Out.early`) while the thread function is running: KF-C13-join-edeadlk.
+  * `pubo o` / `rdo u`: the thread stores a pointer into a Ref of the joiner (`ref(out, o)`), the joiner dereferences
+    it.  The teardown of `u` finalises every non-root object `u` allocated before `join` can return, so such a pointer
+    dangles (`Out.dangling`): KF-C13-join-result-finalised.
+
   What the model cannot exhibit: data races and memory-model effects (the model is sequentially consistent at op
   granularity), the pthread implementation, signals.  The C harness covers those by running real threads.
 -/
@@ -93,14 +111,18 @@ structure TS where
   ngarb : Nat               -- anonymous garbage objects allocated so far (serials `garbBase + i`)
   fin : List Obj            -- ledger: every object finalised by this thread's collector, in order
   pub : Nat                 -- a cell written by this thread, read by others (after join)
+  pubo : Option Obj         -- a pointer written by this thread into a Ref of the joiner (`ref(out, o)`)
 deriving DecidableEq, Repr, Inhabited
 
-def TS.unborn : TS := ⟨.unborn, none, none, [], [], [], 0, [], 0⟩
+def TS.unborn : TS := ⟨.unborn, none, none, [], [], [], 0, [], 0, none⟩
 /-- the main thread after `Cello_Main`'s prologue (`new_raw(GC, &bottom)`; `Thread_Current` made `Exception_Main`) -/
-def TS.main : TS := ⟨.running, some ⟨[]⟩, some Exn.St.init, [], [], [], 0, [], 0⟩
+def TS.main : TS := ⟨.running, some ⟨[]⟩, some Exn.St.init, [], [], [], 0, [], 0, none⟩
 
 /-- serials ≥ `garbBase` are anonymous garbage (never held, never named by an op) -/
 def garbBase : Nat := 1000000
+
+/-- serial `thrBase + u` (below `garbBase`) names the Thread object of thread `u` when it was made with `new(Thread, f)` -/
+def thrBase : Nat := 900000
 
 inductive Errno where
   | zero | einval | edeadlk | ebusy | eperm | esrch | eagain
@@ -110,9 +132,12 @@ inductive Exc where
   | valueError | resourceError | keyError | outOfMemoryError | busyError
 deriving DecidableEq, Repr, Inhabited
 
-/-- exception kinds as numbered by the exception programs (harness `kind_obj`) -/
+/-- the exception objects as addresses of `Cello.Exn` (harness `kind_obj` k is the address k+1; 0 is NULL) -/
 def Exc.code : Exc → Nat
-  | .valueError => 1 | .keyError => 2 | .busyError => 5 | .resourceError => 6 | .outOfMemoryError => 7
+  | .valueError => 2 | .keyError => 3 | .busyError => 6 | .resourceError => 7 | .outOfMemoryError => 8
+
+/-- the object bound at top level of a thread's exception program (programs of this engine do not rethrow it) -/
+def topBound : Nat := 1
 
 /-- `Mutex_Lock`: `if (err is EINVAL) throw ValueError; if (err is EDEADLK) throw ResourceError;` anything else returns -/
 def lockTr : Errno → Option Exc
@@ -164,6 +189,7 @@ inductive LOp where
   | exn (p : Exn.Prog)                      -- a try/throw/catch program on the thread's own Exception
   | lookup (ty cls : Nat)                   -- type_instance(ty, cls) isnt NULL (through the shared cache)
   | pub (v : Nat)                           -- write the thread's published cell
+  | pubo (o : Obj)                          -- ref(out, o): store a pointer to `o` in the joiner's Ref
   | perr (f : PFn) (e : Errno)              -- the pthread primitive under lock/trylock/unlock/join fails with `e`
   | work (kind seed n : Nat)                -- a computation on the thread's own heap whose result the model does not compute
 deriving Repr, Inhabited
@@ -185,13 +211,17 @@ inductive Out where
   | blocked                                 -- not enabled: the caller would block
   | ub                                      -- undefined behaviour of the pthread primitive
   | acquired | released | tried (b : Bool) | joined | nothread | spawned
-deriving Repr, Inhabited
+  | early                                   -- join returned although the thread function is still running (EDEADLK ignored)
+  | dangling (o : Obj)                      -- the pointer read refers to an object that has been finalised
+  | noval                                   -- nothing was published
+deriving Repr, Inhabited, DecidableEq
 
 structure Cfg where
   gcFirst : Bool                  -- Thread_Init_Run deletes the collector before the exception record (CelloGen.Thr.teardownGcFirst)
   consume : Bool                  -- CelloGen.Exn.catchConsumes
   maxDepth : Nat                  -- CelloGen.Exn.maxDepth
   scan : Nat × Nat → Bool         -- Type_Scan(type, class) isnt NULL: the declaration
+  foreignMark : Bool              -- Thread_Mark marks `t->tls` of *any* Thread object GC_Recurse meets (CelloGen.Thr.threadMarkUnguarded)
 
 /-- filled (non-NULL) cache words, process-wide -/
 abbrev Cache := List (Nat × Nat)
@@ -223,8 +253,10 @@ def runDtors (xd : List Nat) (dead : List Obj) (exc : Option Exn.St) : Option (O
     | some s => some (caught .valueError (some s))
   else some exc
 
-/-- a local operation of a thread that is running (between prologue and epilogue of Thread_Init_Run) -/
-def lrun (cfg : Cfg) (t : Tid) (c : Cache) (op : LOp) (ts : TS) : TS × Cache × Out :=
+/-- a local operation of a thread that is running (between prologue and epilogue of Thread_Init_Run).
+    `fm` ("foreign marks"): what the mark phase of a collection finds in the thread-local tables of *other* threads
+    whose Thread objects it reaches (`foreignMarks`, computed by `step`; `[]` for a thread running alone) -/
+def lrun (cfg : Cfg) (t : Tid) (c : Cache) (fm : List Obj) (op : LOp) (ts : TS) : TS × Cache × Out :=
   match op with
   | .begin_ => (ts, c, .dead)
   | .end_ =>
@@ -256,7 +288,7 @@ def lrun (cfg : Cfg) (t : Tid) (c : Cache) (op : LOp) (ts : TS) : TS × Cache ×
     match ts.gc with
     | none => (ts, c, .raised .keyError)
     | some g =>
-      let marked := ts.tls.map (·.2) ++ stack.map (fun k => (⟨t, k⟩ : Obj))
+      let marked := ts.tls.map (·.2) ++ stack.map (fun k => (⟨t, k⟩ : Obj)) ++ fm
       let (g', dead) := g.sweep marked
       let fin := ts.fin ++ dead
       match runDtors ts.xd dead ts.exc with
@@ -266,7 +298,9 @@ def lrun (cfg : Cfg) (t : Tid) (c : Cache) (op : LOp) (ts : TS) : TS × Cache ×
     match ts.gc with
     | none => (ts, c, .raised .keyError)
     | some g => ({ ts with gc := some (g.setAll (garbage t ts.ngarb n)), ngarb := ts.ngarb + n }, c, .ok)
-  | .tset key o => ({ ts with tls := tlsSet ts.tls key o }, c, .ok)
+  | .tset key o =>
+    if o.k ≥ thrBase then (ts, c, .bad)      -- Thread objects / garbage as thread-local values: not modelled
+    else ({ ts with tls := tlsSet ts.tls key o }, c, .ok)
   | .tget key =>
     match ts.tls.lookup key with
     | some o => (ts, c, .val o)
@@ -279,12 +313,13 @@ def lrun (cfg : Cfg) (t : Tid) (c : Cache) (op : LOp) (ts : TS) : TS × Cache ×
     match ts.exc with
     | none => (ts, c, .raised .keyError)
     | some s =>
-      let (s', tr, sg) := Exn.run cfg.consume cfg.maxDepth p s
+      let (s', tr, sg) := Exn.run cfg.consume cfg.maxDepth p topBound s
       ({ ts with exc := some s' }, c, .exn tr sg s'.depth)
   | .lookup ty cls =>
     let (c', b) := cacheLookup cfg c (ty, cls)
     (ts, c', .bool b)
   | .pub v => ({ ts with pub := v }, c, .ok)
+  | .pubo o => ({ ts with pubo := some o }, c, .ok)
   | .work _ _ _ => (ts, c, .ok)
   | .perr f e =>
     match f with
@@ -302,19 +337,19 @@ def lrun (cfg : Cfg) (t : Tid) (c : Cache) (op : LOp) (ts : TS) : TS × Cache ×
       | none => (ts, c, .ok)
 
 /-- one local operation of thread `t` on its own component (and the shared class cache) -/
-def lstep (cfg : Cfg) (t : Tid) (c : Cache) (op : LOp) (ts : TS) : TS × Cache × Out :=
+def lstep (cfg : Cfg) (t : Tid) (c : Cache) (fm : List Obj) (op : LOp) (ts : TS) : TS × Cache × Out :=
   match op with
   | .begin_ =>
     if ts.phase = .ready then
       ({ ts with phase := .running, gc := some ⟨[]⟩, exc := some Exn.St.init }, c, .begun 0 true true)
     else (ts, c, .dead)
-  | op => if ts.phase = .running then lrun cfg t c op ts else (ts, c, .dead)
+  | op => if ts.phase = .running then lrun cfg t c fm op ts else (ts, c, .dead)
 
 /-- the same operation when the class cache is replaced by the declaration itself (the specification of the cache) -/
-def lstepSpec (cfg : Cfg) (t : Tid) (op : LOp) (ts : TS) : TS × Out :=
+def lstepSpec (cfg : Cfg) (t : Tid) (fm : List Obj) (op : LOp) (ts : TS) : TS × Out :=
   match op with
   | .lookup ty cls => if ts.phase = .running then (ts, .bool (cfg.scan (ty, cls))) else (ts, .dead)
-  | op => let r := lstep cfg t [] op ts; (r.1, r.2.2)
+  | op => let r := lstep cfg t [] fm op ts; (r.1, r.2.2)
 
 /-! ### the whole process -/
 
@@ -327,10 +362,12 @@ structure G where
   counter : Nat → Nat           -- shared plain counters
   reg : Tid → Nat               -- per thread: the value it loaded (non-atomic `counter++` = ld; st)
   joined : Tid → Bool           -- pthread_join already performed on this thread
+  wraps : List (Tid × Obj)      -- Thread objects made with `new(Thread, f)`: (thread, the managed object that is its `struct Thread`);
+                                -- a thread without an entry has a raw wrapper (new_raw / static / the main wrapper): no collector meets it
 
 def G.init : G :=
   { thr := fun t => if t = 0 then TS.main else TS.unborn, cache := [], holder := fun _ => none,
-    counter := fun _ => 0, reg := fun _ => 0, joined := fun _ => false }
+    counter := fun _ => 0, reg := fun _ => 0, joined := fun _ => false, wraps := [] }
 
 inductive Ev where
   | loc (t : Tid) (op : LOp)
@@ -343,20 +380,69 @@ inductive Ev where
   | ld (t : Tid) (c : Nat)            -- reg := counter[c]
   | st (t : Tid) (c : Nat)            -- counter[c] := reg + 1
   | rd (t u : Tid)                    -- read thread u's published cell
+  | bind (t u : Tid)                  -- the object ⟨t, thrBase+u⟩ just allocated by t is `new(Thread, f)`: thread u's `struct Thread`
+  | rdo (t u : Tid)                   -- dereference the pointer thread u published (`deref(out)`)
 deriving Repr, Inhabited
 
 def Ev.tid : Ev → Tid
   | .loc t _ | .spawn t _ | .join t _ | .lock t _ | .trylock t _ | .unlock t _ | .winc t _ _ | .ld t _ | .st t _
-  | .rd t _ => t
+  | .rd t _ | .bind t _ | .rdo t _ => t
 
 def running (g : G) (t : Tid) : Bool := (g.thr t).phase = .running
 
+/-! ### collector-managed Thread objects -/
+
+/-- `o` is an entry of the thread's registry -/
+def registered (ts : TS) (o : Obj) : Bool :=
+  match ts.gc with
+  | none => false
+  | some g => g.reg.any (fun e => e.1 = o)
+
+/-- between `call` and the return of `Thread_Init_Run` -/
+def isLive (p : Phase) : Bool := p = .ready || p = .running
+
+/-- the threads whose `struct Thread` the mark phase of `t` reaches when the stack scan finds the own serials `stack`
+    (Thread objects are never roots and never thread-local values in this model) -/
+def heldThreads (g : G) (t : Tid) (stack : List Nat) : List Tid :=
+  g.wraps.filterMap (fun uw =>
+    if uw.2.owner = t && stack.contains uw.2.k && registered (g.thr t) uw.2 then some uw.1 else none)
+
+def heldOf (g : G) (t : Tid) : LOp → List Tid
+  | .collect stack => heldThreads g t stack
+  | _ => []
+
+/-- `GC_Recurse` → `Thread_Mark` → `mark(t->tls, gc, f)` for every Thread object reached: the values of those threads'
+    thread-local tables, as the mark phase of `t` reads them -/
+def foreignMarks (cfg : Cfg) (g : G) (t : Tid) (op : LOp) : List Obj :=
+  if cfg.foreignMark then (heldOf g t op).flatMap (fun u => (g.thr u).tls.map (·.2)) else []
+
+/-- the step of `t` that led to `ts'` finalised the Thread object of a live thread (`Thread_Del` frees its table) -/
+def wrapperKilled (g : G) (t : Tid) (ts' : TS) : Bool :=
+  g.wraps.any (fun uw => isLive (g.thr uw.1).phase && uw.2.owner = t && registered (g.thr t) uw.2 && !registered ts' uw.2)
+
+/-- thread `u`'s Thread object was collector-managed and has been finalised -/
+def wrapperGone (g : G) (u : Tid) : Bool :=
+  match g.wraps.lookup u with
+  | none => false
+  | some w => !registered (g.thr w.owner) w
+
+/-- `⟨t, thrBase+u⟩` is a non-root entry of `t`'s registry, `u` has not been called and has no Thread object yet -/
+def canBind (g : G) (t u : Tid) : Bool :=
+  (g.thr u).phase = .unborn && (g.wraps.lookup u).isNone &&
+  (match (g.thr t).gc with | some gc => gc.reg.contains ((⟨t, thrBase + u⟩ : Obj), false) | none => false)
+
+/-- a collection of `t` walks the table of a thread that may be writing it (a data race in C; atomic in the model) -/
+def raceEv (cfg : Cfg) (g : G) : Ev → Bool
+  | .loc t op => cfg.foreignMark && (heldOf g t op).any (fun u => isLive (g.thr u).phase)
+  | _ => false
+
 def step (cfg : Cfg) (g : G) : Ev → G × Out
   | .loc t op =>
-    let (ts, c, o) := lstep cfg t g.cache op (g.thr t)
-    ({ g with thr := upd g.thr t ts, cache := c }, o)
+    let (ts, c, o) := lstep cfg t g.cache (foreignMarks cfg g t op) op (g.thr t)
+    if wrapperKilled g t ts then (g, .ub) else ({ g with thr := upd g.thr t ts, cache := c }, o)
   | .spawn t u =>
     if !running g t then (g, .dead)
+    else if wrapperGone g u then (g, .ub)         -- `call` on a Thread object that has been finalised
     else if (g.thr u).phase = .unborn then
       ({ g with thr := upd g.thr u { g.thr u with phase := .ready } }, .spawned)
     else if (g.thr u).phase = .done ∧ g.joined u = true then
@@ -366,6 +452,8 @@ def step (cfg : Cfg) (g : G) : Ev → G × Out
     else (g, .bad)
   | .join t u =>
     if !running g t then (g, .dead)
+    else if wrapperGone g u then (g, .ub)         -- `join` on a Thread object that has been finalised
+    else if t = u then (g, .early)                -- pthread_join(self) = EDEADLK, which Thread_Join ignores: it returns
     else match (g.thr u).phase with
       | .unborn => (g, .nothread)                  -- `if (not t->thread) return;`
       | .done => if g.joined u then (g, .ub) else ({ g with joined := upd g.joined u true }, .joined)
@@ -396,6 +484,16 @@ def step (cfg : Cfg) (g : G) : Ev → G × Out
     if !running g t then (g, .dead) else ({ g with counter := upd g.counter c (g.reg t + 1) }, .num (g.reg t + 1))
   | .rd t u =>
     if !running g t then (g, .dead) else (g, .num (g.thr u).pub)
+  | .bind t u =>
+    if !running g t then (g, .dead)
+    else if canBind g t u then
+      ({ g with wraps := (u, ⟨t, thrBase + u⟩) :: g.wraps }, .ok)
+    else (g, .bad)
+  | .rdo t u =>
+    if !running g t then (g, .dead)
+    else match (g.thr u).pubo with
+      | none => (g, .noval)
+      | some o => if (g.thr o.owner).fin.contains o then (g, .dangling o) else (g, .val o)
 
 /-- execute a schedule (any list of events: any number of threads, any interleaving); returns the trace -/
 def run (cfg : Cfg) : List Ev → G → G × List (Ev × Out)
@@ -424,11 +522,36 @@ def proj (u : Tid) : List (Ev × Out) → List Act
 def solo (cfg : Cfg) (u : Tid) : List Act → Cache → TS → TS × List Out
   | [], _, ts => (ts, [])
   | .op o :: as, c, ts =>
-    let (ts1, c1, out) := lstep cfg u c o ts
+    let (ts1, c1, out) := lstep cfg u c [] o ts
     let (ts2, outs) := solo cfg u as c1 ts1
     (ts2, out :: outs)
   | .born :: as, c, ts =>
     solo cfg u as c (if ts.phase = .unborn ∨ ts.phase = .done then { ts with phase := .ready } else ts)
+
+/-! ### the isolation hypothesis: what a collection may meet -/
+
+/-- a thread whose `struct Thread` a foreign collection can walk without reading anything and without racing:
+    not started or finished, and its thread-local table is empty -/
+def quiet (ts : TS) : Bool := (ts.phase = .unborn || ts.phase = .done) && ts.tls.isEmpty
+
+/-- event `e` in state `g` keeps the threads isolated: a collection meets Thread objects of quiet threads only (or
+    `Thread_Mark` does not walk foreign tables at all), and no sweep finalises the Thread object of a live thread -/
+def isolatedEv (cfg : Cfg) (g : G) : Ev → Bool
+  | .loc t op =>
+    (!cfg.foreignMark || (heldOf g t op).all (fun u => quiet (g.thr u))) &&
+    !wrapperKilled g t (lstep cfg t g.cache (foreignMarks cfg g t op) op (g.thr t)).1
+  | _ => true
+
+/-- **no thread's collection meets the collector-managed Thread object of a thread that is running or has thread-local
+    values** (and none frees the Thread object of a live thread), at every step of the schedule.  Decidable. -/
+def Isolated (cfg : Cfg) : List Ev → G → Bool
+  | [], _ => true
+  | e :: s, g => isolatedEv cfg g e && Isolated cfg s (step cfg g e).1
+
+/-- number of steps of the schedule at which a collection walks the table of a live thread -/
+def races (cfg : Cfg) : List Ev → G → Nat
+  | [], _ => 0
+  | e :: s, g => (if raceEv cfg g e then 1 else 0) + races cfg s (step cfg g e).1
 
 /-- the outputs of thread `u`'s local operations in a trace -/
 def localOuts (u : Tid) : List (Ev × Out) → List Out
@@ -473,7 +596,7 @@ def sortNat (l : List Nat) : List Nat :=
 
 /-- ledger as printed: named serials sorted, garbage counted -/
 def showLedger (fin : List Obj) : String :=
-  let named := sortNat ((fin.filter (fun o => o.k < garbBase)).map (·.k))
+  let named := sortNat ((fin.filter (fun o => o.k < thrBase)).map (·.k))     -- Thread objects are not listed
   let ng := (fin.filter (fun o => o.k ≥ garbBase)).length
   s!"fin=[{",".intercalate (named.map toString)}] garbage={ng}"
 
@@ -498,5 +621,8 @@ def Out.show : Out → String
   | .joined => "joined"
   | .nothread => "nothread"
   | .spawned => "spawned"
+  | .early => "early"
+  | .dangling o => s!"dangling={o.show}"
+  | .noval => "noval"
 
 end Cello.Thr
